@@ -73,9 +73,32 @@ TEMP_POOL = ['lp', 'sk', 'tt']
 STACK_POOL = ['stk', 'aux', '']
 
 
+XKINDS = ['macro', 'rept', 'irp', 'irpc']
+
+
+def plan_xshadow(tier):
+    """systematic family: a body (macro / REPT / IRP / IRPC) that refers to a label defined further down in the same
+    body, expanded at section depth 0..3, with a same-named symbol defined beforehand on every subset of the
+    enclosing levels (global, grandfather, father, own section), in a source that needs no second pass for any
+    other reason and in one that does.  The documented binding is always the label of the own expansion."""
+    cases = []
+    i = 0
+    for var in range(1 if tier == 'quick' else 12):
+        for kind in (XKINDS[:3] if tier == 'quick' else XKINDS) + ['sect']:
+            for depth in range(4):
+                # kind 'sect': the same situation without an expansion - the later definition is an ordinary one of the
+                # innermost section, so that level cannot hold the name beforehand
+                for mask in (range(1 << (depth + 1)) if kind != 'sect' else range(1 << depth) if depth else []):
+                    for extra in (False, True):
+                        cases.append({'x': kind, 'depth': depth, 'mask': mask, 'extra': extra, 'var': var,
+                                      'cs': i % 3 == 1, 'cpu': CPU_ORDER[(i // 3) % 3], 'focus': 'xshadow'})
+                        i += 1
+    return cases
+
+
 def plan(tier, seed):
     n = 1500 if tier == 'quick' else 30000
-    cases = []
+    cases = plan_xshadow(tier)
     for i in range(n):
         c = {'cs': i % 3 == 1, 'cpu': CPU_ORDER[(i // 3) % 3], 'focus': FOCI[(i // 9) % len(FOCI)]}
         if i % 4 == 3:
@@ -534,7 +557,18 @@ class Gen:
             return out
         for _ in range(rng.randrange(1, 4)):
             r = rng.random()
-            if r < 0.55:
+            if r < 0.2:
+                # labels are local to the individual repetitions of REPT / IRP as well
+                lab = rng.choice(self.const_pool)
+                body = [('def', 'label', self.sp(lab), None), ('ref', [(self.sp(lab), None)])]
+                if rng.random() < 0.5:
+                    body.insert(0, ('ref', [(self.sp(lab), None)]))
+                if rng.random() < 0.5:
+                    out.append(('rept', rng.randrange(1, 4), None, False, body))
+                else:
+                    out.append(('irp', 'zq', ['u%d' % k for k in range(rng.randrange(1, 4))], False, body))
+                out.append(('ref', [(self.sp(lab), None)]))
+            elif r < 0.55:
                 if not self.global_consts:
                     continue
                 out.append(('call', 'mloc', [self.sp(rng.choice(self.global_consts))]))
@@ -693,6 +727,17 @@ def render(prog, cpu):
             out.append('\tendm')
         elif op == 'call':
             out.append('\t%s\t%s' % (st[1], ','.join(st[2])))
+        elif op in ('rept', 'irp', 'irpc'):
+            if op == 'rept':
+                arg = str(st[1])
+            elif op == 'irp':
+                arg = ','.join([st[1]] + list(st[2]))
+            else:
+                arg = '%s,"%s"' % (st[1], st[2])
+            out.append('\t%s\t%s%s' % (op, arg, ',{GLOBALSYMBOLS}' if st[3] else ''))
+            for b in st[4]:
+                one(b, out)
+            out.append('\tendm')
         else:
             raise ValueError(op)
 
@@ -752,6 +797,75 @@ def prune(prog, res, keep):
             out.append(st)
         return out
     return walk(prog)
+
+
+def make_xshadow(rng, case):
+    """see plan_xshadow(); returns the same tuple as make_program()"""
+    cs, cpu = case['cs'], case['cpu']
+    g = Gen(rng, cs, cpu, 'scope', None)
+    lab = rng.choice(g.const_pool)
+    lab2 = rng.choice([x for x in g.const_pool if g.canon(x) != g.canon(lab)])
+    # the body: reference first, label afterwards
+    body = [('ref', [(g.sp(lab), None)])]
+    if rng.random() < 0.5:
+        body.append(('nop',))
+    body.append(('def', 'label', g.sp(lab), None))
+    body.append(('ref', [(g.sp(lab), None)]))
+    two = rng.random() < 0.4
+    if two:
+        body.insert(rng.randrange(len(body)), ('ref', [(g.sp(lab2), None), (g.sp(lab), None)]))
+        body.append(('def', 'label', g.sp(lab2), None))
+    kind = case['x']
+    reps = rng.choice([1, 2, 2, 3])
+    prog = []
+    if kind == 'macro':
+        prog.append(('macro', 'mx', [], False, body))
+        expansion = [('call', 'mx', []) for _ in range(reps)]
+        if rng.random() < 0.5 and reps > 1:
+            expansion.insert(1, ('ref', [(g.sp(lab), None)]))
+    elif kind == 'rept':
+        expansion = [('rept', reps, None, False, body)]
+    elif kind == 'irp':
+        expansion = [('irp', 'zq', ['u%d' % k for k in range(reps)], False, body)]
+    elif kind == 'irpc':
+        expansion = [('irpc', 'zq', 'xyz'[:reps], False, body)]
+    else:
+        expansion = [st if st[0] != 'def' else g.mkdef(rng.choice(['label', 'equ', '=']), st[2]) for st in body]
+    if case['extra']:
+        # something else that needs a second pass
+        prog.append(('ref', [('fwdx', None)]))
+    depth = case['depth']
+    names = rng.sample([n for n in g.sect_pool if g.canon(n) not in (g.canon(lab), g.canon(lab2))], 3)
+    for lvl in range(depth + 1):
+        if lvl:
+            prog.append(('section', names[lvl - 1]))
+        if case['mask'] >> lvl & 1:
+            how = rng.choice(['equ', '=', 'label', 'labelstmt', g.var_how()])
+            prog.append(g.mkdef(how, g.sp(lab)) if how in scope.CONST_HOW else ('def', how, g.sp(lab), g.val()))
+            if rng.random() < 0.5:
+                prog.append(('ref', [(g.sp(lab), None)]))
+        if (rng.random() < 0.3 or (two and lvl == 0 and case['mask'])) and not (kind == 'sect' and lvl == depth):
+            # (with a second label in the body, an outer symbol of that name keeps pass 1 free of unknowns)
+            prog.append(g.mkdef('equ', g.sp(lab2)))
+        if rng.random() < 0.3:
+            prog.append(('nop',))
+    prog += expansion
+    prog.append(('ref', [(g.sp(lab), None), (g.sp(lab2), None)]))
+    for lvl in range(depth, 0, -1):
+        prog.append(('endsection', rng.choice([None, g.sp(names[lvl - 1])])))
+        prog.append(('ref', [(g.sp(lab), None)]))
+    if case['extra']:
+        prog.append(('def', 'equ', 'fwdx', g.val()))
+    text, lines = render(prog, cpu)
+    res = evaluate(prog, lines, cs, cpu)
+    if any(r.exp is not None and r.verdict != 'val' for r in res.refs):
+        raise RuntimeError('xshadow: body reference not defined')
+    prog = prune(prog, res, lambda r: r.exp is not None or r.verdict == 'val')
+    text, lines = render(prog, cpu)
+    res = evaluate(prog, lines, cs, cpu)
+    if res.errors or any(r.verdict != 'val' for r in res.refs):
+        raise RuntimeError('xshadow: program not defined')
+    return prog, text, lines, res, None, not case['extra'] and all(r.p1 for r in res.refs)
 
 
 def make_program(rng, case):
@@ -841,8 +955,8 @@ def run_case(case, ctx):
     cs, cpu = case['cs'], case['cpu']
     info = CPUS[cpu]
     try:
-        prog, text, lines, res, fault, single = make_program(rng, case)
-    except RuntimeError as e:
+        prog, text, lines, res, fault, single = (make_xshadow if 'x' in case else make_program)(rng, case)
+    except (RuntimeError, scope.Unspecified) as e:
         out.inconc('generator: %s' % e)
         return
     ctx.write('g.asm', text)
@@ -974,6 +1088,10 @@ def run_case(case, ctx):
             out.obs['refs_outer_found_in_pass1_then_hidden_by_later_local'] += 1
         if r.fwd_pending:
             out.obs['refs_under_pending_FORWARD'] += 1
+        if r.kind == 'macro-local' and r.when == 'before-def':
+            out.sets['expansion_label_forward_refs'].add('%s|depth%d|outer-levels%d|%s' % (
+                case.get('x', 'macro'), r.sect.depth,
+                sum(1 for s2 in r.sect.chain() if (r.sym.iname, s2.id) in res.tablekeys), pclass))
         if r.sym.via:
             out.sets['export_routes'].add('%s-to-depth-%d' % (r.sym.via, r.sym.sect.depth))
         if got != r.value:
